@@ -18,6 +18,21 @@ Import ListNotations.
 Require Import MD.Gen.HbondTables.
 Local Open Scope Z_scope.
 
+(* ================================================================= constants *)
+(* the numeric constants of the three criteria: the model is evaluated with the ones regenerated from
+   today's source (gen_consts); doc_consts are the documented values, used as the oracle by the search
+   when the two differ *)
+Record consts := mkConsts {
+  c_bh_cut : Z * Z; c_bh_ang : Z * Z; c_wn_cut : Z * Z; c_wn_const : Z * Z;
+  c_ks_ecut : Z * Z; c_ks_ca2 : Z * Z; c_ks_coupling : Z * Z; c_ks_signs : list Z;
+  c_ks_nh : Z * Z; c_ks_floor : Z * Z }.
+Definition gen_consts : consts :=
+  mkConsts bh_distance_cutoff bh_angle_cutoff wn_distance_cutoff wn_angle_const ks_energy_cutoff
+           ks_minimal_ca_distance2 ks_coupling ks_coupling_signs ks_nh_length ks_energy_floor.
+Definition doc_consts : consts :=
+  mkConsts (25, 100) (120, 1) (33, 100) (44, 1000000) (-5, 10) (81, 100) (27888, 10000) [-1; -1; 1; 1]
+           (1, 10) (-99, 10).
+
 (* ================================================================= topology: _get_bond_triplets *)
 Inductive elem := EN | EO | EH | EC | EX.
 Definition elem_eqb (a b : elem) : bool :=
